@@ -111,7 +111,7 @@ class SizeMonitor(Monitor):
             return True
         return False
 
-    def size_check(self, cond, act):
+    def size_check(self, cond, act, core=None):
         """If cond compares the object's size with the limit: returns polarity p such that
         cond == True  <=>  (size > limit) == p ; else None."""
         c = X.strip(cond)
@@ -119,9 +119,16 @@ class SizeMonitor(Monitor):
             return None
         l, r, op = c["l"], c["r"], c["op"]
         f = act.f
-        if self.is_size_of_object(l, act) and self.is_limit(r, f):
+
+        def is_size(e):
+            if self.is_size_of_object(e, act):
+                return True
+            e0 = X.strip(e)
+            return isinstance(e0, dict) and e0.get("k") == "ref" and core is not None and \
+                any(s[0] == e0.get("id") and s[1] == "$size" for s in core[4])
+        if is_size(l) and self.is_limit(r, f):
             pass
-        elif self.is_size_of_object(r, act) and self.is_limit(l, f):
+        elif is_size(r) and self.is_limit(l, f):
             op = {">": "<", "<": ">", ">=": "<=", "<=": ">="}[op]
         else:
             return None
@@ -149,6 +156,8 @@ class SizeMonitor(Monitor):
             dirty = dirty | {fld}
         if grow and (fld in SIZE_FIELDS or fld == "*"):
             grown = True
+            # a size read into a local before this growth no longer describes the object
+            snaps = frozenset(s for s in snaps if s[1] != "$size")
         return (dirty, grown, over, iv, snaps)
 
     def _snapshot_of(self, rhs, core, act):
@@ -271,6 +280,11 @@ class SizeMonitor(Monitor):
         engine, act = eng
         if init is None:
             return [core]
+        # `const size_t n = get_href_size();` — the local stands for the object's size until the next growth
+        if self.is_size_of_object(init, act):
+            dirty, grown, over, iv, snaps = core
+            snaps2 = frozenset(s for s in snaps if s[0] != var["id"]) | {(var["id"], "$size", frozenset(), grown)}
+            return [(dirty, grown, over, iv, snaps2)]
         i0 = init
         moved = False
         # construct(copy/move) [ std::move(x) ]
@@ -318,7 +332,7 @@ class SizeMonitor(Monitor):
                 d2 = dirty - {"is_valid"} if "*" not in dirty else dirty
                 return (d2, grown, over, iv, snaps)
             return (dirty, grown, over, "F", snaps)
-        pol = self.size_check(c, act)
+        pol = self.size_check(c, act, core)
         if pol is not None:
             self.checks_seen.add((act.f["key"], X.show(c), c.get("loc", "")))
             if isinstance(pol, str):
